@@ -560,6 +560,39 @@ def unit_typed(unit):
         D0, T0 = _d(2020, 1, 2), _dt(2021, 3, 4, 5, 6)
         ladder = [("bool", [True, False, True]), ("int", [1, 2, 3]), ("float", [0.5, 1.5, 2.5]), ("complex", [1j, 2j, 3j]), ("date", [D0, D0, D0]), ("datetime", [T0, T0, T0])]
         wider = {"int": [2.5, 1j], "float": [1j], "date": [T0], "bool": [], "complex": [], "datetime": []}
+        # values that do NOT belong to the column's kind and are not a wider kind either (text that looks like the kind, a number
+        # for a date ...): the write is refused, or - if it is accepted - the dtype accommodates what is stored
+        foreign = {"int": ["7", b"7"], "float": ["2.5"], "date": ["2020-03-01", 737000], "datetime": ["2021-03-04T05:06:00"], "bool": ["True"], "complex": ["1j"]}
+        for kname, base in ladder:
+            for w in foreign[kname]:
+                for key_form in ("int", "slice", "table-cell", "fillna"):
+                    vals = list(base)
+                    if key_form == "fillna":
+                        vals[1] = None
+                    agg.evals += 1; agg.transitions += 1; agg.states += 1; agg.nontrivial += 1; agg.compared += 1
+                    case = {"part": "assign-foreign", "column": [repr(x) for x in vals], "key_form": key_form, "written": repr(w)}
+                    try:
+                        v = Vector(list(vals)); t = None
+                        if key_form == "int":
+                            v[1] = w
+                        elif key_form == "slice":
+                            v[0:1] = [w]
+                        elif key_form == "table-cell":
+                            t = Table([Vector(list(vals), name="a"), Vector([7, 8, 9], name="b")])
+                            t[1, "a"] = w
+                            v = t["a"]
+                        else:
+                            v = v.fillna(w)
+                    except Exception:
+                        agg.outcomes["T-agree"] += 1          # refused: fine
+                        continue
+                    cur = list(v._underlying)
+                    want = expected_dtype(cur)
+                    sc_ = v.schema()
+                    if sc_ is None or (want[0] is not None and sc_.kind is not want[0] and sc_.kind is not object):
+                        agg.violation(V("setitem.foreign-value", "accepted-value-not-accommodated-by-the-dtype", case, fmt(want), fmt(dt_pair(sc_)) if sc_ is not None else None))
+                    else:
+                        agg.outcomes["T-agree"] += 1
         for kname, base in ladder:
             for w in wider[kname] + [None]:
                 for none_pos in (None, 0, 2):
@@ -628,6 +661,22 @@ def unit_typed(unit):
                     agg.nontrivial += 1
                 for c in res._underlying:
                     check_col(agg, "read_csv", c, case)
+        # "never on element order": every ordering of the same cells gives the same column dtype
+        for n in (2, 3):
+            for combo in itertools.combinations_with_replacement(cells + ["7", "n/a", "-"], n):
+                seen = {}
+                for perm in set(itertools.permutations(combo)):
+                    text = "h,g\n" + "".join(f"{c},7\n" for c in perm)
+                    try:
+                        col = read_csv(io.StringIO(text))._underlying[0]
+                        seen[perm] = (dt_pair(col.schema()) if col.schema() is not None else None, sorted(type(x).__name__ for x in col._underlying))
+                    except Exception as e:
+                        seen[perm] = ("raises", type(e).__name__)
+                agg.evals += 1; agg.transitions += len(seen); agg.states += 1; agg.compared += 1
+                if len({repr(v) for v in seen.values()}) > 1:
+                    agg.violation(V("read_csv.order", "column-typing-depends-on-row-order", {"part": "csv-permutations", "cells": list(combo)}, None, {" | ".join(k): repr(v) for k, v in list(seen.items())[:4]}))
+                else:
+                    agg.outcomes["T-agree"] += 1
     return agg
 
 
